@@ -109,7 +109,9 @@ def r1(ctx):
     leaves = []
     for n in cfg.nodes:
         if n.kind == "test" and n.ast is not None:
-            f = _leaf_fact(n.ast)
+            # (a prefix held in a local - root_prefix = root.rstrip('/') + '/' - is read through its definition)
+            from .common import sym_expr as _sxl
+            f = _leaf_fact(_sxl(fi, n.ast, n, allow_calls=lambda t_: t_.endswith(".rstrip")))
             if f is not None:
                 leaves.append((n, f))
     for r in rets:
@@ -156,7 +158,12 @@ def r1(ctx):
                 if isinstance(inner, ast.Name):
                     d2 = du.reaching(inner.id, rdefs[0][0])
                     src = d2[0][1] if len(d2) == 1 else None
-                okj = isinstance(src, ast.Call) and norm(src.func) == "os.path.join" and len(src.args) == 2 and norm(src.args[1]) == name_param
+                okj = isinstance(src, ast.Call) and norm(src.func) == "os.path.join" and len(src.args) == 2
+                if okj:
+                    # the joined name is the file name parameter, as rebound or as a normalised copy in another local
+                    from .common import sym_text as _sxj
+                    jn = cfg.node_of(src) or cfg.nodes[first]
+                    okj = _sxj(fi, src.args[1], jn, allow_calls=lambda t_: t_.endswith(".replace")) in (name_param, "%s.replace('\\\\', '/')" % name_param)
                 ctx.check(okj, "C17.R1", fi, "the guarded value is abspath(join(root, filename))", witness=norm(src) if isinstance(src, ast.AST) else None)
                 break
         if not ok and any(f[0] == "under-without-separator" and f[1] == R for n, f in leaves):
@@ -191,8 +198,52 @@ def r2(ctx):
     ctx.check(not hs, "C17.R2", fi, "no exception is swallowed in path_join_safe", witness=[norm(h)[:50] for h in hs])
 
 
+BAD_NAMES = ["..", ".", "../x", "a/../b", "a/..", "./a", "a/./b", "a/.", "..\\x", "a\\..\\b", ".\\a", "a\\.", "a/..\\b", "../../etc/passwd", "a/b/../../..", "a\\.\\b"]
+GOOD_NAMES = ["a", "a/b", "a..b", "..a", "a..", ".a", "a.", "a/.b/c", "...", "a/.../b", "a\\b", "a\\b/c", "index.html", "a.b/c.d"]
+
+
+def _component_test_by_evaluation(ctx, fi):
+    """the part of path_join_safe in front of os.path.join, decided by partial evaluation (engine/minieval.py; os.path.abspath stands
+    for the identity on an absolute root) on a family of file names: every name with a `.` or `..` component - with either kind of
+    slash - raises ValueError before the join, every other name reaches the join with its backslashes replaced.
+    None when the function is outside the evaluator's fragment."""
+    from engine.minieval import MiniEval, Stopped
+    from engine.index import Undecided
+    out = {"accepted_bad": [], "refused_good": [], "not_normalised": [], "cases": 0}
+    ident = lambda p_: p_
+    try:
+        for name, bad in [(n_, True) for n_ in BAD_NAMES] + [(n_, False) for n_ in GOOD_NAMES]:
+            out["cases"] += 1
+            ev = MiniEval(ctx.repo, ctx.folder, fi, stubs={"os.path.abspath": ident, "os.path.normpath": ident, "os.path.realpath": ident}, stop_at=("os.path.join",))
+            try:
+                r = ev.call(["/srv/www", name])
+                reached = None
+            except Stopped as s_:
+                r = None
+                reached = s_.args_
+            if bad:
+                if not (r is not None and r[0] == "raise" and r[1] == "ValueError"):
+                    out["accepted_bad"].append({"name": name, "outcome": "reaches os.path.join%r" % (reached,) if reached is not None else repr(r)})
+            else:
+                if reached is None:
+                    out["refused_good"].append({"name": name, "outcome": repr(r)})
+                elif len(reached) != 2 or reached[1] != name.replace("\\", "/"):
+                    out["not_normalised"].append({"name": name, "joined": list(reached)})
+    except Undecided:
+        return None
+    return out
+
+
 def r3(ctx):
     fi = ctx.fn(PJS)
+    ev = _component_test_by_evaluation(ctx, fi)
+    if ev is not None:
+        why = "path_join_safe evaluated (engine/minieval) up to os.path.join on %d file names" % ev["cases"]
+        ctx.check(not ev["not_normalised"], "C17.R3", fi, "backslashes are replaced by '/' before the component test and the join", why, witness=ev["not_normalised"][:3])
+        ctx.check(not ev["accepted_bad"], "C17.R3", fi, "the component test looks at every '/'-separated component of the file name", why, witness=ev["accepted_bad"][:3])
+        ctx.check(not [x for x in ev["accepted_bad"] if ".." in x["name"]] and not ev["refused_good"], "C17.R3", fi, "'..' components are refused", why,
+                  witness=(ev["accepted_bad"] + ev["refused_good"])[:3])
+        return
     name_param = fi.params[1]
     rep = [n for n in walk_own(fi.node) if isinstance(n, ast.Assign) and norm(n.targets[0]) == name_param and norm(n.value) in
            ("%s.replace('\\\\', '/')" % name_param,)]
